@@ -75,16 +75,16 @@ Proof. exact (@zeroize_after_const_default). Qed.
 (* ---- tie to the current source (tools/ga2coq, coq/gen/GenDeleg.v): the bodies of the trait
         impls as they stand in the source now are the delegations the model implements ---- *)
 From Coq Require Import String.
-From GA Require Import Deleg DelegTie.
+From GA Require Import Deleg.
 From GAGen Require Import GenDeleg.
 Local Open Scope string_scope.
 Theorem C19_source_zeroize :
   lookup "Zeroize::zeroize" gen_delegations = Some (DEach (VAsMutSlice "self") "zeroize").
-Proof. rewrite !tie_deleg_of. reflexivity. Qed.
+Proof. reflexivity. Qed.
 
 (* ---- T1: which trait methods are implemented (coq/gen/GenSigs.v gen_impl_methods) ---- *)
 From Coq Require Import String.
-From GA Require Import SigTie.
+From GA Require Import SigDefs.
 From GAGen Require Import GenSigs.
 Local Open Scope string_scope.
 
@@ -100,7 +100,7 @@ Proof. repeat split. Qed.
 (* ---- T1: the one-expression bodies this property's code consists of besides the modelled core, as they stand
         in the source now (coq/gen/GenSigs.v gen_thin_bodies) ---- *)
 From Coq Require Import String.
-From GA Require Import SigTie.
+From GA Require Import SigDefs.
 From GAGen Require Import GenSigs.
 Local Open Scope string_scope.
 
